@@ -280,7 +280,8 @@ theorem linv_decide {own : String} {s s' : LState} {e : Env} {v : Snap} (h : LIn
         simp at hc
         intro hrest
         subst hrest
-        simp [hc] at hcons
+        have hu : e.userFns = false := hg
+        simp [hc, hu] at hcons
       · exact hstale hfresh
     · intro p _
       exact hg
